@@ -13,14 +13,17 @@ open BtcVerif
 /-- what a script is built from / what cooked iteration yields -/
 inductive Token
   | op (n : Nat)        -- a CScriptOp
-  | int (z : Int)       -- a plain integer
-  | data (b : Bytes)    -- a byte string
+  | int (z : Int)       -- a plain integer (or an instance of an int subclass other than bool / CScriptOp)
+  | data (b : Bytes)    -- a byte string (bytes, bytearray, or an instance of a subclass such as CScript)
+  | bool (b : Bool)     -- True / False (Python's bool is an int: they build as 1 / 0)
+  | other               -- an element of any other type (str, None, float, list, …): not a script element
 deriving DecidableEq, Repr
 
 /-- tokens for which the read-back laws are claimed: opcode tokens 0x4f..0xff (a CScriptOp below
     OP_1NEGATE is a push opcode and swallows what follows it), any integer, any byte string -/
 def Token.inDomain : Token → Prop
   | .op n => 0x4f ≤ n
+  | .other => False
   | _ => True
 
 /-! ### script numbers: minimal little-endian sign-magnitude -/
@@ -102,6 +105,8 @@ def tokenBytes : Token → Option Bytes
       else if z = -1 then some [0x4f]
       else pushEncode (numEncode z)
   | .data d => pushEncode d
+  | .bool b => some [if b then 0x51 else 0x00]
+  | .other => none
 
 def build : List Token → Option Bytes
   | [] => some []
@@ -119,6 +124,8 @@ def canonTok : Token → Token
       else if z = -1 then .op 0x4f
       else .data (numEncode z)
   | .data d => if d = [] then .int 0 else .data d
+  | .bool b => .int (if b then 1 else 0)
+  | .other => .other
 
 def canon (ts : List Token) : List Token := ts.map canonTok
 
@@ -149,6 +156,16 @@ def getOp : Bytes → Option (Nat × Bytes × Bytes)
 def opEnc (opc : Nat) (d : Bytes) : Bytes :=
   if opc > 0x4e then [UInt8.ofNat opc]
   else UInt8.ofNat opc :: (leBytes (lenBytes opc) d.length ++ d)
+
+/-- the bytes of a sequence of operations -/
+def encOps (ops : List (Nat × Bytes)) : Bytes := (ops.map (fun p => opEnc p.1 p.2)).flatten
+
+/-- (opcode, payload) pairs that are operations: an opcode byte; no payload above OP_PUSHDATA4;
+    exactly `opc` payload bytes for the direct pushes; a payload length that fits the length field
+    for OP_PUSHDATA1/2/4 -/
+def ValidOp (opc : Nat) (d : Bytes) : Prop :=
+  opc < 256 ∧
+    (if opc > 0x4e then d = [] else if opc < 0x4c then d.length = opc else d.length < 256 ^ lenBytes opc)
 
 /-- a byte string that begins with a push opcode whose length field or payload is cut short -/
 def TruncatedPush (r : Bytes) : Prop :=
@@ -260,5 +277,13 @@ def sigOpsFrom (accurate : Bool) : Nat → List (Nat × Bytes) → Nat
      else 0) + sigOpsFrom accurate o r
 
 def sigOpCount (accurate : Bool) (s : Bytes) : Nat := sigOpsFrom accurate 0xff (parse s).1
+
+/-- the opcode GetSigOpCount remembers after reading `ops`, starting from `last` -/
+def lastOpcodeFrom : Nat → List (Nat × Bytes) → Nat
+  | last, [] => last
+  | _, (o, _) :: r => lastOpcodeFrom o r
+
+/-- OP_0 / OP_1..OP_16 for a version or small number 0..16 -/
+def opN (v : Nat) : Nat := if v = 0 then 0x00 else 0x50 + v
 
 end BtcVerif.Spec.Script
